@@ -1377,7 +1377,7 @@ def cfinal(hist, obs_last):
 
 IMPORTS = "From PV Require Import Lib.Base Gen.C01_ClassTree Model.C01 Model.C01_Idx Model.C01_Dict."
 IMPORTS_EV = "From PV Require Import Lib.Base Gen.C01_ClassTree Model.C01 Model.C01_Idx Model.C01_Hist."
-MODELS = ["Model/C01.vo", "Model/C01_Idx.vo", "Model/C01_Dict.vo", "Model/C01_Hist.vo"]
+MODELS = ["Model/C01.vo", "Model/C01_Idx.vo", "Model/C01_Dict.vo", "Model/C01_Hist.vo", "Model/C01_QMap.vo", "Model/C01_Args.vo"]
 
 
 def cevents(hist, obs_all):
@@ -1681,6 +1681,386 @@ def directed_tree_search(ctx, classes, cid, problems):
     return found
 
 
+# ----------------------------------------------------------------------------- round j: the read paths of the quarter table
+# (Model/C01_QMap.v: Part.quarter_duration_map = len-1 doubling + interp1d(kind="previous"); Part.quarter_durations(a, b))
+IMPORTS_QM = "From PV Require Import Lib.Base Model.C01 Model.C01_Idx Model.C01_QMap."
+QM_TY = "list (Z * Z) * list (Z * Z) * list (option Z * option Z * list (Z * Z))"
+IP_TY = "list Z * list Z * (Z * Z) * list (Z * Z)"
+
+
+def gen_qmap_case(rng):
+    q0 = rng.choice([1, 1, 2, 4, 12, 480, 10080])
+    r = rng.random()
+    n = 0 if r < 0.15 else 1 if r < 0.30 else rng.randint(2, 6) if r < 0.85 else rng.randint(7, 12)
+    pool = sorted(set([0] + [rng.randint(0, 40) for _ in range(rng.randint(2, 6))]))
+    vals = [q0] + rng.sample([1, 2, 3, 4, 6, 480, 960], 3)
+    setqs = [[rng.choice(pool), rng.choice(vals)] for _ in range(n)]
+    return {"q0": q0, "setqs": setqs, "pool": pool, "skind": rng.choice(["int", "int", "np.int64", "float", "mixed"]),
+            "ask_seed": rng.randint(0, 10 ** 9)}
+
+
+def run_qmap_case(case):
+    """Build the table on a real Part, ask quarter_duration_map / the cached _quarter_map / quarter_durations.
+    Returns (tab, asks [(s, v)], qds [(a, b, rows)], messages of the direct oracle, feature list)."""
+    import random as _random
+    import numpy as np
+    import partitura.score as S
+    rng = _random.Random(case["ask_seed"])
+    part = S.Part("P", quarter_duration=case["q0"])
+    for t, q in case["setqs"]:
+        part.set_quarter_duration(t, q)
+    tab = [[int(t), int(q)] for t, q in zip(part._quarter_times, part._quarter_durations)]
+    times = [t for t, _ in tab]
+    cand = set([-1, -7, 0, times[-1] + 1, times[-1] + 1000, rng.randint(0, 45), rng.randint(0, 45)])
+    for t in times:
+        cand.update([t - 1, t, t + 1])
+    cand = sorted(cand)
+    if len(cand) > 16:
+        keep = set(rng.sample(cand, 12)) | {-1, times[-1], times[-1] + 1000}
+        cand = [s for s in cand if s in keep]
+    conv = {"int": [int], "np.int64": [np.int64], "float": [float], "mixed": [int, np.int64, float, np.int32]}[case["skind"]]
+    in_force = lambda s: [q for t, q in tab if t <= s][-1] if s >= times[0] else tab[0][1]
+    asks, msgs, feats = [], [], []
+    for k, s in enumerate(cand):
+        arg = conv[k % len(conv)](s)
+        for which, f in (("quarter_duration_map", part.quarter_duration_map), ("_quarter_map", part._quarter_map)):
+            v = f(arg)
+            if np.ndim(v) != 0 or float(v) != int(v):
+                msgs.append("O3: %s(%r) = %r is not one integral value" % (which, arg, v))
+                continue
+            asks.append((s, int(v)))
+            if int(v) != in_force(s):
+                msgs.append("O3: %s(%r) = %d, the duration in force at %d is %d (table %s)" % (which, arg, int(v), s, in_force(s), tab))
+        feats.append("qmap ask:" + ("before the first change" if s < times[0] else "beyond the last change" if s > times[-1]
+                                    else "at a change" if s in times else "between changes"))
+    bounds = [None, 0, times[-1], times[-1] + 1] + times + [t + 1 for t in times]
+    qds = []
+    for _ in range(5):
+        a, b = rng.choice(bounds), rng.choice(bounds)
+        rows = [[int(x) for x in row] for row in part.quarter_durations(a, b).tolist()]
+        qds.append((a, b, rows))
+        want = [e for e in tab if (a is None or e[0] >= a) and (b is None or e[0] < b)]
+        if rows != want:
+            msgs.append("O2: quarter_durations(%r, %r) returned %s, the entries of the window are %s" % (a, b, rows, want))
+        feats.append("quarter_durations bounds:" + ("none" if a is None and b is None else "one" if a is None or b is None else
+                                                    "both, end 0" if b == 0 else "both, empty window" if a >= b else "both"))
+    return tab, asks, qds, msgs, feats
+
+
+def cqmap(tab, asks, qds):
+    pr = lambda e: ctuple([cz(e[0]), cz(e[1])])
+    return ctuple([clist([pr(e) for e in tab]), clist([pr(e) for e in asks]),
+                   clist([ctuple([copt(a, cz), copt(b, cz), clist([pr(e) for e in rows])]) for a, b, rows in qds])])
+
+
+def gen_interp_case(rng):
+    """scipy's interp1d(kind="previous") itself: sorted x (duplicates in 40%), any y, any fill values."""
+    import numpy as np
+    from scipy.interpolate import interp1d
+    n = rng.choice([1, 2, 2, 3, 4, 5, 8])
+    x = sorted(rng.randint(-5, 30) for _ in range(n))
+    if n > 1 and rng.random() < 0.4:
+        k = rng.randrange(n - 1)
+        x[k + 1] = x[k]
+        x.sort()
+    strictly = all(a < b for a, b in zip(x, x[1:]))
+    y = [rng.randint(1, 9) for _ in range(n)]
+    fill = (rng.randint(10, 19), rng.randint(20, 29))
+    f = interp1d(x, y, kind="previous", bounds_error=False, fill_value=fill)
+    ss = sorted(set([x[0] - 1, x[0], x[-1], x[-1] + 1] + [rng.randint(-7, 33) for _ in range(6)]))
+    asks = [(s, int(f(s))) for s in ss if float(f(s)) == int(f(s))]
+    return x, y, fill, asks, ("duplicates in x" if not strictly else "one entry" if n == 1 else "strictly increasing x")
+
+
+def qmap_stream(ctx, quick, model_ok):
+    n_cases = 150 if quick else 2500
+    terms, cases, bad = [], [], None
+    for _ in range(n_cases):
+        case = gen_qmap_case(ctx.rng)
+        try:
+            tab, asks, qds, msgs, feats = run_qmap_case(case)
+        except Exception as e:
+            tab, asks, qds, feats = [], [], [], []
+            msgs = ["O4: %s: %s" % (type(e).__name__, e)]
+        ctx.evaluations += len(asks) + len(qds)
+        ctx.count("qmap table entries:" + ("1 (lists doubled)" if len(tab) == 1 else "2-3" if len(tab) < 4 else "4+"))
+        ctx.count("qmap argument kind:" + case["skind"])
+        for f in feats:
+            ctx.count(f)
+        if msgs:
+            if bad is None:
+                bad = (case, msgs)
+            continue
+        if len(tab) > 1:
+            ctx.nontrivial(("qmap", tab))
+        terms.append(cqmap(tab, asks, qds))
+        cases.append(case)
+    ctx.obligation("oracle: quarter_duration_map / the cached _quarter_map answer the duration in force (before the first and beyond the "
+                   "last change included) and quarter_durations(a, b) returns the entries of the half-open window on %d tables built by "
+                   "set_quarter_duration histories" % n_cases, bad is None, bad[1][:3] if bad else "")
+    if bad is not None:
+        case, msgs = bad
+
+        def fails(sub):
+            try:
+                return bool(run_qmap_case(dict(case, setqs=sub))[3])
+            except Exception:
+                return True
+        setqs = core.ddmin(case["setqs"], fails) if len(case["setqs"]) > 1 else case["setqs"]
+        small = dict(case, setqs=setqs)
+        try:
+            m2 = run_qmap_case(small)[3] or msgs
+        except Exception as e:
+            m2 = ["O4: %s: %s" % (type(e).__name__, e)]
+        ctx.violation("C01 fails on the real Part (quarter table read paths) after Part(quarter_duration=%d) + set_quarter_duration calls %s: %s"
+                      % (small["q0"], json.dumps(small["setqs"]), "; ".join(m2[:2])), {"kind": "qmap", "case": small, "messages": m2[:6]})
+    iterms, ifeat = [], {}
+    for _ in range(60 if quick else 1500):
+        try:
+            x, y, fill, asks, feat = gen_interp_case(ctx.rng)
+        except Exception as e:   # scipy rejecting a sorted table is not partitura's business; count it
+            ctx.count("interp1d raised:" + type(e).__name__)
+            continue
+        ctx.count("interp1d case:" + feat)
+        ctx.evaluations += len(asks)
+        iterms.append(ctuple([clist([cz(v) for v in x]), clist([cz(v) for v in y]), ctuple([cz(fill[0]), cz(fill[1])]),
+                              clist([ctuple([cz(s), cz(v)]) for s, v in asks])]))
+    if not model_ok:
+        return
+    try:
+        failing = ctx.coq_failing("qmap", IMPORTS_QM, "", terms, "qmap_case_ok", shard=100 if quick else 400, ty=QM_TY) if terms else []
+        ifail = ctx.coq_failing("interp", IMPORTS_QM, "", iterms, "interp_case_ok", shard=400, ty=IP_TY) if iterms else []
+    except RuntimeError as e:
+        ctx.obligation("correspondence: Model/C01_QMap.v evaluates", False, str(e)[-800:])
+        return
+    ctx.obligation("correspondence: on %d tables read off real Parts, qmap_code (len-1 doubling + interp1d previous: search on the shifted times, "
+                   "clip, fill values) gives every answer of quarter_duration_map and of the cached _quarter_map, and qdur_code every "
+                   "result of quarter_durations(a, b)" % len(terms), not failing, failing[:5])
+    ctx.obligation("correspondence: interp_previous = scipy's interp1d(kind='previous', bounds_error=False, fill_value=(lo, hi)) on %d "
+                   "sorted tables (duplicates included)" % len(iterms), not ifail, ifail[:5])
+    for j in failing[:2]:
+        case = cases[j]
+        ctx.violation("the code-level model of quarter_duration_map / quarter_durations (Model/C01_QMap.v) and the real Part disagree after "
+                      "Part(quarter_duration=%d) + set_quarter_duration calls %s" % (case["q0"], json.dumps(case["setqs"])),
+                      {"kind": "qmap", "case": case, "messages": ["correspondence: qmap_case_ok is false"]})
+    if ifail and not failing:
+        ctx.violation("scipy's interp1d(kind='previous') no longer behaves as Model/C01_QMap.v interp_previous (search on shifted x, clip, "
+                      "fill): case %s" % iterms[ifail[0]][:300], {"kind": "interp", "term": iterms[ifail[0]][:2000]}, no_input=True)
+
+
+# ----------------------------------------------------------------------------- round j: the argument glue of Part.iter_all
+# (Model/C01_Args.v: bounds None / number / TimePoint object, every mode value, cls None, arguments explicit or omitted)
+IMPORTS_AR = "From PV Require Import Lib.Base Gen.C01_ClassTree Model.C01 Model.C01_Idx Model.C01_Args."
+AR_TY = "Z * list op * list argq"
+BOUND_KINDS = ["none", "int", "numpy", "float", "free TimePoint", "own TimePoint"]
+
+
+def gen_args_history(rng, classes, cid, shape):
+    """A populated part: every object added (both sides in 70%), then a few removals / a quarter change / a bare point."""
+    h = gen_history(rng, classes, cid, nsteps=1, nq=0, shape=shape)
+    h["tkind"] = "int"
+    tt = h["pool"]
+    steps = []
+    for k in range(len(h["objs"])):
+        s = rng.choice(tt)
+        x = rng.random()
+        e = rng.choice([t for t in tt if t >= s]) if x < 0.7 else None
+        if x > 0.9:
+            s, e = None, s
+        steps.append({"op": ["add", k, s, e]})
+    for _ in range(rng.randint(0, 2)):
+        steps.append({"op": rng.choice([["remove", rng.randrange(len(h["objs"])), rng.choice(["start", "end", "both"])],
+                                        ["setq", rng.choice(tt), rng.choice(QVALS)], ["gp", rng.choice(tt) + 1]])})
+    h["steps"] = steps
+    return h
+
+
+def gen_args_queries(rng, hist, n):
+    tt = sorted(set(hist["pool"]) | {0})
+    qs, none_left = [], 1
+    for _ in range(n):
+        x = rng.random()
+        if none_left and x < 0.12:
+            c, none_left = None, 0
+        elif x < 0.55:
+            c = rng.choice(hist["objs"])                 # the class of an object of the history
+        elif x < 0.8 and hist.get("rel_classes"):
+            c = rng.choice(hist["rel_classes"])          # an ancestor of one
+        else:
+            c = pick_cls(rng, hist, False)
+        sub = rng.random() < 0.65
+        lo = None if rng.random() < 0.35 else (0 if rng.random() < 0.3 else rng.choice(tt[: max(1, len(tt) // 2)]) + rng.choice([0, 0, 1]))
+        x = rng.random()
+        if x < 0.35:
+            hi = None
+        elif x < 0.5:
+            hi = 0
+        elif x < 0.9:
+            hi = rng.choice([t for t in tt if lo is None or t >= lo] or tt) + rng.choice([0, 1, 1])
+        else:
+            hi = rng.choice(tt)
+        bs = [[rng.choice(BOUND_KINDS[1:]) if t is not None else "none", t] for t in (lo, hi)]
+        mode = rng.choice(["starting", "starting", "ending", "ending", "foo", "start", None, "Ending"])
+        qs.append({"cls": c, "start": bs[0], "end": bs[1], "sub": sub, "mode": mode,
+                   "style": rng.choice(["positional", "keywords, defaults omitted"])})
+    return qs
+
+
+def run_args_query(r, q):
+    """One explicit iter_all call on the runner's real Part -> (returned [[t, [cls, serial]]], expected by the registrations)."""
+    import warnings
+    import numpy as np
+    p = r.part
+
+    def mk(b):
+        kind, t = b
+        if kind == "none":
+            return None
+        if kind == "int":
+            return int(t)
+        if kind == "numpy":
+            return np.int64(t)
+        if kind == "float":
+            return float(t)
+        if kind == "own TimePoint":
+            return p.get_point(t) or r.S.TimePoint(t)
+        return r.S.TimePoint(t)
+    cls = None if q["cls"] is None else r.classes[q["cls"]]
+    a, b = mk(q["start"]), mk(q["end"])
+    with warnings.catch_warnings():
+        warnings.simplefilter("ignore")
+        if q["style"] == "positional":
+            res = list(p.iter_all(cls, a, b, q["sub"], q["mode"]))
+        else:
+            kw = {}
+            if cls is not None:
+                kw["cls"] = cls
+            if a is not None:
+                kw["start"] = a
+            if b is not None:
+                kw["end"] = b
+            if q["sub"]:
+                kw["include_subclasses"] = True
+            if q["mode"] != "starting":
+                kw["mode"] = q["mode"]
+            res = list(p.iter_all(**kw))
+    j = 1 if q["mode"] == "ending" else 0
+    got = []
+    for o in res:
+        ref = o.end if j == 1 else o.start
+        got.append([-1 if ref is None else int(ref.t), list(r.ident(o))])
+    got = r.canon_runs(got)
+    ta, tb = q["start"][1], q["end"][1]
+    exp = []
+    for kk, o in enumerate(r.objs):
+        t = r.reg[kk][j]
+        if t is None or not ((ta is None or ta <= t) and (tb is None or t < tb)):
+            continue
+        if cls is None or type(o) is cls or (q["sub"] and issubclass(type(o), cls)):
+            exp.append([t, list(r.ident(o))])
+    exp.sort(key=lambda x: (x[0], x[1]))
+    return got, exp
+
+
+def show_args_query(q, classes):
+    return "iter_all(cls=%s, start=%s %r, end=%s %r, include_subclasses=%s, mode=%r) [%s]" % (
+        None if q["cls"] is None else classes[q["cls"]].__name__, q["start"][0], q["start"][1], q["end"][0], q["end"][1],
+        q["sub"], q["mode"], q["style"])
+
+
+def cbound(b):
+    kind, t = b
+    return "BNone" if kind == "none" else ("(BTp %s)" if "TimePoint" in kind else "(BNum %s)") % cz(t)
+
+
+def cargq(q, got):
+    return "AQ %s %s %s %s %s %s" % (copt(q["cls"], cz), cbound(q["start"]), cbound(q["end"]), cbool(q["sub"]),
+                                     {"starting": "MStarting", "ending": "MEnding"}.get(q["mode"], "MOther"),
+                                     clist(["(%s, %s)" % (cz(t), cpair_obj(o)) for t, o in got]))
+
+
+def run_args_case(hist, classes, cid):
+    """-> (runner or None when the history has an invalid argument, [(query, got, expected)])."""
+    r = Runner(hist, classes, cid)
+    probe = sorted(set(hist.get("pool", [])) | {0, 1, 2, 5, 1000})
+    for st in hist["steps"]:
+        if not r.valid(st["op"]):
+            return None, []
+        r.step(st, probe, light=True)
+    return r, [(q,) + run_args_query(r, q) for q in hist["args_queries"]]
+
+
+def args_stream(ctx, quick, model_ok, classes, cid, shape):
+    terms, kept, bad = [], [], None
+    n_cases = 40 if quick else 600
+    for _ in range(n_cases):
+        h = gen_args_history(ctx.rng, classes, cid, shape)
+        h["args_queries"] = gen_args_queries(ctx.rng, h, 8)
+        try:
+            r, results = run_args_case(h, classes, cid)
+        except Exception as e:
+            if bad is None:
+                bad = (h, None, "O4: an iter_all call with valid arguments raised %s: %s" % (type(e).__name__, e))
+            continue
+        if r is None:
+            continue
+        ctx.evaluations += len(results)
+        rows = []
+        for q, got, exp in results:
+            ctx.count("args start:" + q["start"][0] + (" 0" if q["start"][1] == 0 else ""))
+            ctx.count("args end:" + q["end"][0] + (" 0" if q["end"][1] == 0 else ""))
+            ctx.count("args mode:" + repr(q["mode"]))
+            ctx.count("args style:" + q["style"])
+            ctx.count("args result:" + ("empty" if not got else "1-2 objects" if len(got) < 3 else "3+ objects")
+                      + (", end bound 0 on a part with objects" if q["end"][1] == 0 and any(x is not None for rg in r.reg for x in rg) else ""))
+            if q["cls"] is None:
+                ctx.count("args cls None")
+            if got != exp and bad is None:
+                bad = (h, q, "O2: %s returned %s, the registered objects give %s" % (show_args_query(q, classes), got, exp))
+            rows.append(cargq(q, got))
+        if any(got for _, got, _ in results):
+            ctx.nontrivial(("args", [s["op"] for s in h["steps"]], [cargq(q, []) for q, _, _ in results]))
+        terms.append("(%s, %s, %s)" % (cz(h["q0"]), clist([cop(h, st["op"]) for st in h["steps"]]), "[" + ";\n    ".join(rows) + "]"))
+        kept.append(h)
+    ctx.obligation("oracle: Part.iter_all called with every kind of bound (None / int / numpy / float / free and own TimePoint, 0 included), "
+                   "every mode value (unknown ones warn and mean 'starting'), cls None, arguments positional or omitted returns exactly the "
+                   "matching registered objects in time order (%d parts x 8 calls)" % n_cases, bad is None, bad[2] if bad else "")
+    if bad is not None:
+        h, q, msg = bad
+        small = strip_hist(h)
+        small["args_queries"] = [q] if q else h["args_queries"]
+        if q:
+            def fails(steps):
+                try:
+                    r, res = run_args_case(dict(small, steps=steps), classes, cid)
+                    return r is not None and res[0][1] != res[0][2]
+                except Exception:
+                    return False
+            if len(small["steps"]) > 1 and fails(small["steps"]):
+                small["steps"] = core.ddmin(small["steps"], fails)
+                try:
+                    _, res = run_args_case(small, classes, cid)
+                    msg = "O2: %s returned %s, the registered objects give %s" % (show_args_query(q, classes), res[0][1], res[0][2])
+                except Exception:
+                    pass
+        ctx.violation("C01 fails on the real Part after %s: %s" % (json.dumps([s["op"] for s in small["steps"]]), msg),
+                      {"kind": "args", "history": small, "messages": [msg]})
+    if not model_ok or not terms:
+        return
+    try:
+        failing = ctx.coq_failing("args", IMPORTS_AR, "", terms, "args_case_ok", shard=10 if quick else 40, ty=AR_TY)
+    except RuntimeError as e:
+        ctx.obligation("correspondence: Model/C01_Args.v evaluates", False, str(e)[-800:])
+        return
+    ctx.obligation("correspondence: iter_all_args (Model/C01_Args.v: the `is None` / isinstance / mode / cls None glue over the binary search and the "
+                   "slice) returns what the real Part.iter_all returned for all %d calls on %d parts" % (8 * len(terms), len(terms)), not failing, failing[:5])
+    for j in failing[:2]:
+        h = strip_hist(kept[j])
+        h["args_queries"] = kept[j]["args_queries"]
+        ctx.violation("the model of the argument glue of Part.iter_all (Model/C01_Args.v) and the real Part disagree after %s"
+                      % json.dumps([s["op"] for s in h["steps"]]), {"kind": "args", "history": h, "messages": ["correspondence: args_case_ok is false"]})
+
+
 def run(ctx):
     ctx.rule = ("Edit histories generated by a state-aware generator (5-60 operations, 2-8 objects from the whole reflected "
                 "TimedObject hierarchy -- 35% of them of a class reached along two inheritance paths --, times from a pool of "
@@ -1703,7 +2083,11 @@ def run(ctx):
                 "compared with the three Coq models (list / index / registry level) and the invariant/specification is evaluated on the real Part (query results as "
                 "lists: every matching registered object exactly once, in time order).  distinct_nontrivial = distinct "
                 "histories containing >= 1 removal that deletes a time point or >= 1 replacement of an existing "
-                "quarter-duration entry.")
+                "quarter-duration entry.  Round j stream (read paths of the quarter table): 150 (thorough 2500) tables built on real Parts by 0-12 "
+                "set_quarter_duration calls (15% none: one entry, the lists are doubled; out of order, replacements, redundant values), "
+                "quarter_duration_map and the cached _quarter_map asked at every change time, one before / after it, negative times, beyond "
+                "the last change (arguments as int / np.int64 / float / mixed), quarter_durations(a, b) with bounds None / 0 / change times "
+                "/ one after / beyond; 60 (1500) raw interp1d(kind='previous') tables with duplicates in x; also non-trivial: tables with >= 2 entries.  Argument glue of iter_all: 40 (thorough 600) populated parts (2-8+ objects added, 0-2 removals / quarter changes / bare points) x 8 explicit calls with bounds None / int / numpy / float / free TimePoint / the part's own TimePoint (30% at time 0), modes 'starting' / 'ending' / unknown values / None, cls None once per part, arguments positional (explicit None / False / 'starting') or omitted.")
     ctx.trusted = ["Coq 8.16.1 kernel incl. vm_compute",
                    "harness/props/c01.py: class-tree reflector, history runner/dumper, Coq term printer",
                    "Python-side oracle (names the failing step; independent of the Coq model)",
@@ -1717,7 +2101,7 @@ def run(ctx):
     shape = tree_shape(classes, cid)
     ctx.count("classes reflected", len(classes))
     ctx.count("classes reached along two inheritance paths", len(shape["twice"]))
-    ok, why = ctx.coq_props(expect_min=44)
+    ok, why = ctx.coq_props(expect_min=57)
     if not ok:
         # say which statement about the regenerated class tree fails (if it is one of those)
         named = diagnose_tree(ctx, classes)
@@ -1889,6 +2273,12 @@ def run(ctx):
                           i, json.dumps([s["op"] for s in h["steps"][: i + 1]]), "; ".join(which) or "?"),
                       replay_obj(h, i, ["correspondence: the observation after this step differs from the model: " + "; ".join(which)], obs_all[i]))
 
+    # ---- round j: the read paths of the quarter table (Model/C01_QMap.v)
+    ctx.log("round j streams: quarter-table read paths, iter_all argument glue")
+    qmap_stream(ctx, quick, model_ok)
+    args_stream(ctx, quick, model_ok, classes, cid, shape)
+    ctx.log("round j streams done")
+
     if not quick and model_ok:
         names = {c.__name__: i for i, c in enumerate(classes)}
         if all(n in names for n in ("Note", "GraceNote", "ConstantLoudnessDirection", "Direction", "TimedObject")):
@@ -1920,6 +2310,32 @@ def replay(obj):
     core.setup_import_path()
     classes, cid = class_tree()
     r = obj.get("replay", obj)
+    if r.get("kind") == "args":
+        hh = r["history"]
+        print("history: q0=%s objects=%s operations=%s" % (hh["q0"], [classes[c].__name__ for c in hh["objs"]], json.dumps([s["op"] for s in hh["steps"]])))
+        rr, results = run_args_case(hh, classes, cid)
+        if rr is None:
+            print("   (the history has an invalid argument)")
+            return 0
+        print("   registered (start, end) per object: %s" % json.dumps(rr.reg))
+        for q, got, exp in results:
+            print("   %s -> %s%s" % (show_args_query(q, classes), json.dumps(got), "" if got == exp else "   ORACLE: the registered objects give %s" % json.dumps(exp)))
+        print("recorded messages:", json.dumps(r.get("messages")))
+        print("model side: iter_all_args of Model/C01_Args.v on run (init q0) ops (./check C01 does so)")
+        return 0
+    if r.get("kind") == "qmap":
+        case = r["case"]
+        print("Part(quarter_duration=%d); set_quarter_duration calls: %s; arguments handed over as %s" % (case["q0"], json.dumps(case["setqs"]), case["skind"]))
+        tab, asks, qds, msgs, _ = run_qmap_case(case)
+        print("   quarter table: %s" % json.dumps(tab))
+        print("   quarter_duration_map / _quarter_map (time, answer): %s" % json.dumps(asks))
+        for a, b, rows in qds:
+            print("   quarter_durations(%r, %r) -> %s" % (a, b, json.dumps(rows)))
+        for m in msgs:
+            print("   ORACLE: " + m)
+        print("recorded messages:", json.dumps(r.get("messages")))
+        print("model side: qmap_code / qdur_code of Model/C01_QMap.v on the table above (./check C01 does so)")
+        return 0
     if "pair" in r:
         pair = r["pair"]
         for w, h in enumerate(pair["parts"]):
